@@ -27,11 +27,11 @@ open VaxisModel.Model.Render (Tok)
 /-! ### the relation -/
 
 /-- The emulator cell `c` shows the display cell `d`. A never written / erased emulator cell shows
-    as a default-style space with the stored background. -/
+    as a default-style space with the stored background (such a cell has width 0). -/
 def CellRel (dec : String → G) : DCell → ECell → Prop
   | .glyph g w st lp lk, c =>
       (c.g = dec g ∧ c.g ≠ [] ∧ c.w = w ∧ absStyle c.st = st ∧ c.st.link = dec lk ∧ c.st.linkParams = dec lp) ∨
-      (c.g = [] ∧ g = "20" ∧ w = 1 ∧ st = { bg := absCol c.st.bg } ∧ lp = "" ∧ lk = "")
+      (c.g = [] ∧ c.w = 0 ∧ g = "20" ∧ w = 1 ∧ st = { bg := absCol c.st.bg } ∧ lp = "" ∧ lk = "")
   | .cont, _ => True
   | .poison, _ => True
 
@@ -684,6 +684,6 @@ theorem dsim_init (hemp : dec "" = []) (w h : Int) (hw1 : 1 ≤ w) (hw2 : w ≤ 
       refine ⟨by simp, ?_⟩
       intro j x y hx hy
       rw [rep _ _ _ _ hx, rep _ _ _ _ hy]
-      exact Or.inr ⟨rfl, rfl, rfl, by rw [absCol_zero], rfl, rfl⟩ }
+      exact Or.inr ⟨rfl, rfl, rfl, rfl, by rw [absCol_zero], rfl, rfl⟩ }
 
 end VaxisModel.Lemmas.C12Sim
